@@ -242,7 +242,11 @@ pub(crate) mod inner {
             T: Default,
         {
             let mutex = self.0.get_or_init(Default::default);
-            let mut guard = mutex.write().unwrap();
+            // a formatter that could not be created panics while the lock is held (`expect` in the getters),
+            // nothing has been inserted at that point so the cache is still consistent: ignore the poison.
+            let mut guard = mutex
+                .write()
+                .unwrap_or_else(std::sync::PoisonError::into_inner);
             f(&mut guard)
         }
     }
